@@ -321,7 +321,7 @@ func (g *G) classes() []genClass {
 	}
 	urls := rnd(randOpt{class: "urls", maxRes: 2, maxOps: 6, nearMiss: true})
 	vary := rnd(randOpt{class: "vary", maxRes: 1, maxOps: 8, vary: true})
-	inval := rnd(randOpt{class: "inval", maxRes: 2, maxOps: 8, methods: true, vary: true})
+	inval := rnd(randOpt{class: "inval", maxRes: 2, maxOps: 8, methods: true, vary: true, grammar: true})
 	status := rnd(randOpt{class: "status", maxRes: 1, maxOps: 5, methods: true, statuses: true})
 	faults := rnd(randOpt{class: "faults", maxRes: 1, maxOps: 5, vary: true, statuses: true, faults: true})
 	backends := rnd(randOpt{class: "backends", maxRes: 2, maxOps: 6, vary: true, backends: true})
